@@ -54,7 +54,7 @@ def main():
                                                ("demonstration fails without the change", ev.get("demo_passes_without")),
                                                ("an existing test fails with the change: " + ", ".join(ev.get("suite_missing") or [])[:300], ev.get("suite_passes"))) if not ok)
         sid = cid if not OFFSET else f"{cid.split('_')[0]}_{int(cid.split('_')[1]) + OFFSET}"
-        meta = {"id": sid, "round": 1 + OFFSET // 3, "property": ev["property"], "status": status, "dropped_because": reason,
+        meta = {"id": sid, "round": int(os.environ.get("SEED_ROUND") or 1 + OFFSET // 3), "property": ev["property"], "status": status, "dropped_because": reason,
                 "what_it_needs_to_manifest": needs(notes),
                 "what_was_run": {"repo_head": head,
                                  "apply": f"git -C <scratch worktree of /repo HEAD> apply seeded/{sid}/patch.diff",
@@ -85,7 +85,7 @@ def main():
     lines.append("")
     lines.append(f"{len(rows)} candidate changes evaluated, {len(kept)} kept, {len(caught)} of the kept ones are caught by the check of their property (quick tier).")
     os.makedirs(os.path.join(ROOT, "seeded"), exist_ok=True)
-    open(os.path.join(ROOT, "seeded", "TABLE.md" if not OFFSET else f"TABLE_round{1 + OFFSET // 3}.md"), "w").write("\n".join(lines) + "\n")
+    open(os.path.join(ROOT, "seeded", os.environ.get("SEED_TABLE") or ("TABLE.md" if not OFFSET else f"TABLE_round{1 + OFFSET // 3}.md")), "w").write("\n".join(lines) + "\n")
     print("\n".join(lines[-3:]))
 
 
